@@ -15,9 +15,10 @@ pub fn main(tier: Tier, seed: u64) -> i32 {
         (2, 0, vec![1], vec![false, true]),
         (2, 0, vec![], vec![true, false]),
     ];
+    cfgs.push((3, 1, vec![], vec![true, true, true]));
     if tier.is_thorough() {
-        cfgs.push((3, 1, vec![], vec![true, true, true]));
         cfgs.push((3, 0, vec![2], vec![true, false, true]));
+        cfgs.push((3, 2, vec![0, 1, 2], vec![true, true, false]));
     }
     let mut jobs = vec![];
     let mut bases = vec![];
